@@ -48,7 +48,7 @@ def run():
     oc = {}
     for what, kind, why in flat:
         oc[kind] = oc.get(kind, 0) + 1
-    c.bounded["rejected_snippets"] = {"evaluations": len(flat), "distinct_nontrivial": oc.get("rejected", 0), "outcomes": oc, "exhaustive": True, "rule": "34 small valid declarations / statements (parenthesised lists, physical types, external names, maps, loops): every single-token deletion and every truncation classified by the real parser under a %d s limit; non-trivial = rejected with a located message" % reject.LIMIT}
+    c.bounded["rejected_snippets"] = {"evaluations": len(flat), "distinct_nontrivial": oc.get("rejected", 0), "outcomes": oc, "exhaustive": True, "rule": "34 small valid declarations / statements (parenthesised lists, physical types, external names, maps, loops): every single-token deletion and every truncation, plus 260 sources that end inside a comma-separated list (12 declaration / 8 statement heads x 13 endings such as ',,' or ' a, ,'), classified by the real parser under a %d s limit; non-trivial = rejected with a located message" % reject.LIMIT}
     for what, kind, why in flat:
         if why is None or (kind, why) in seen:
             continue
@@ -61,7 +61,7 @@ def run():
         if why:
             c.findings.append(Finding("bounded", ("reject:" if kind == "crash" else "reject_cli:") + kind, "%s [%s]" % (why, os.path.relpath(path, corpus.REPO)), {"file": path, "scenario_seed": seed, "observed": why}, why))
     if c.tier == "thorough":
-        run_selftest(c, ["mutants_parts.py"], lambda eng: PARTS + ['vsg.vhdlFile.utils.detect_subelement_until', 'vsg.vhdlFile.utils.assign_tokens_until_matching_closing_paren', 'vsg.vhdlFile.classify.physical_type_definition.classify'])
+        run_selftest(c, ["mutants_parts.py"], lambda eng: PARTS + ['vsg.vhdlFile.utils.detect_subelement_until', 'vsg.vhdlFile.utils.assign_tokens_until_matching_closing_paren', 'vsg.vhdlFile.classify.physical_type_definition.classify', 'vsg.vhdlFile.classify.instantiation_list.classify', 'vsg.vhdlFile.classify.entity_name_list.classify'])
     # valid configuration shapes of the per-file sections through the real CLI
     from bounded import cfgshapes
 
